@@ -9,7 +9,7 @@ func init() {
 			"the 18-digit square root is used exactly for ticks ≥ the old minimum (and prices ≥ 10^-12 are chopped to 18 digits), the 36-digit one otherwise; rounding a tick to its spacing subtracts the Euclidean remainder (never moves up); the ±1 correction of sqrt-price→tick compares with the neighbouring ticks' sqrt prices using ≥ / ≥ / <.",
 		NotCovered:  []string{"monotonicity and exactness of the tick→price formula over the 4.5·10^8 ticks", "inverse property sqrt-price→tick→sqrt-price (numeric enumeration)"},
 		Assumptions: []string{"osmomath monotone square roots (C13)"},
-		MinObl:      30,
+		MinObl:      38,
 		Run:         runC14,
 	})
 }
